@@ -222,6 +222,25 @@ def _mape(case):
                     continue
                 if abs(v - 1) > 1e-12:
                     bad("naive forecast != 1", "y=%r pred=%r -> %r" % (case["y"], pred.tolist(), v))
+    # naive forecast with one missing forecast at every position (leading, interior, trailing) and with two of them
+    if n >= 3:
+        naive = numpy.concatenate([[y[0]], y[:-1]])
+        holes = [(k,) for k in range(n)] + [(k, k2) for k in range(n) for k2 in range(k + 2, n)]
+        for hole in holes:
+            pred = naive.copy()
+            pred[list(hole)] = numpy.nan
+            idx = [t for t in range(1, n) if not (numpy.isnan(pred[t]) or numpy.isnan(pred[t - 1]))]
+            den = sum(abs(y[t] - y[t - 1]) for t in idx)
+            if den == 0:
+                continue
+            cnt += 1
+            try:
+                v = float(ts_mape(y, pred))
+            except Exception as e:
+                bad("naive raises", "%s y=%r pred=%r" % (e, case["y"], pred.tolist()))
+                continue
+            if abs(v - 1) > 1e-12:
+                bad("naive forecast != 1", "y=%r pred=%r (missing forecasts at %r) -> %r" % (case["y"], pred.tolist(), list(hole), v))
     # multi-horizon tables (n rows, h columns: what build_ts_X_y returns as targets for delay2 >= 3): the previous value of a cell is
     # the cell one ROW above
     if n >= 2:
